@@ -54,6 +54,7 @@ type insRec struct {
 	nimm int8
 	ind  int8
 	ext  string
+	off  uint32 // offset of the record's bytes in the function's code
 }
 
 type label struct {
@@ -620,16 +621,16 @@ func (g *gen) constBytes(ty byte) []byte {
 // ---------------- emission ----------------
 
 func (f *fctx) emit(name string, bytes []byte, imm ...int64) {
+	r := insRec{name: name, ind: f.ind, nimm: int8(len(imm)), off: uint32(len(f.code))}
 	f.code = append(f.code, bytes...)
-	r := insRec{name: name, ind: f.ind, nimm: int8(len(imm))}
 	copy(r.imm[:], imm)
 	f.ins = append(f.ins, r)
 	f.budget--
 }
 
 func (f *fctx) emitExt(name, ext string, bytes []byte) {
+	f.ins = append(f.ins, insRec{name: name, ind: f.ind, ext: ext, off: uint32(len(f.code))})
 	f.code = append(f.code, bytes...)
-	f.ins = append(f.ins, insRec{name: name, ind: f.ind, ext: ext})
 	f.budget--
 }
 
@@ -765,6 +766,13 @@ func (g *gen) function(idx uint32, s Sig) {
 		}
 	}
 	g.m.Funcs = append(g.m.Funcs, wasmenc.Func{Type: g.m.AddType(s.P, s.R), Locals: f.locals[len(s.P):], Body: f.code})
+	offs := make([]uint32, 0, len(f.ins)+1)
+	for _, r := range f.ins {
+		if n := len(offs); n == 0 || offs[n-1] != r.off {
+			offs = append(offs, r.off)
+		}
+	}
+	g.out.InsOffs = append(g.out.InsOffs, append(offs, uint32(len(f.code))))
 	g.out.Text = append(g.out.Text, fmt.Sprintf("(func $f%d (param %s) (result %s) (locals %s)", idx, typesName(s.P), typesName(s.R), typesName(f.locals[len(s.P):])))
 	g.out.Text = append(g.out.Text, renderIns(f.ins)...)
 	g.out.Text = append(g.out.Text, ")")
